@@ -45,6 +45,9 @@ type Compiler struct {
 	currScope   *map[string]string
 	currModule  string
 	lambdaCount uint
+	// Root scope (globals and singletons) of every module and, for every module, the module each imported name comes from.
+	moduleScopes  map[string]map[string]string
+	moduleImports map[string]map[string]string
 	// Program source: required for invocations of the evaluator.
 	analyzedSource   map[string]ast.AnalyzedProgram
 	entryPointModule string
@@ -65,6 +68,8 @@ func NewCompiler(program map[string]ast.AnalyzedProgram, entryPointModule string
 		labelNameMangle: make(map[string]uint64),
 		varScopes:       scopes,
 		currScope:       currScope,
+		moduleScopes:    make(map[string]map[string]string),
+		moduleImports:   make(map[string]map[string]string),
 		currModule:      "",
 		currFn:          "",
 		// Program source.
@@ -129,6 +134,10 @@ func (self *Compiler) compileProgram(
 	for moduleName, module := range program {
 		self.currModule = moduleName
 		self.modules[self.currModule] = make(map[string]*Function)
+		// Every module has its own root scope: a global only shadows names of its own module.
+		self.moduleScopes[moduleName] = make(map[string]string)
+		self.moduleImports[moduleName] = make(map[string]string)
+		self.setRootScope(self.moduleScopes[moduleName])
 
 		initFn := self.mangleFn(InitFunctionIdent)
 		self.addFn(InitFunctionIdent, initFn)
@@ -153,8 +162,11 @@ func (self *Compiler) compileProgram(
 		}
 
 		for _, item := range module.Imports {
-			// No need to handle anything, the analyzer has already taken care of these cases.
+			// Remember which module the names come from: they are linked once all modules are known.
 			if item.TargetIsHMS {
+				for _, importItem := range item.ToImport {
+					self.moduleImports[moduleName][importItem.Ident.Ident()] = item.FromModule.Ident()
+				}
 				continue
 			}
 
@@ -211,10 +223,20 @@ func (self *Compiler) compileProgram(
 	// 	}
 	// }
 
+	// An imported global is the global of the module it is imported from.
+	for moduleName, imports := range self.moduleImports {
+		for name, from := range imports {
+			if mangled, found := self.moduleScopes[from][name]; found {
+				self.moduleScopes[moduleName][name] = mangled
+			}
+		}
+	}
+
 	moduleAnnotations := make(ModuleAnnotations)
 
 	for moduleName, module := range program {
 		self.currModule = moduleName
+		self.setRootScope(self.moduleScopes[moduleName])
 
 		// Compile all functions
 		var mainFnSpan errors.Span
